@@ -14,8 +14,8 @@ def model(ctx, g, cls, wset, maxrest, witness):
     label = "MC_Persist[%s,%s,|w|=%d,all x,restores<=%d]" % (g, cls, len(wset), maxrest)
     ctx.mc("MC_Persist", cfg(view="ViewNoLast", spec="PersistSpec", constants=consts,
                              invariants=["RestoreEquivalent", "SerializeStable", "SameOutcomes", "AtMostOneKey",
-                                         "AtMostOneMsg", "EntropyOnlyInStart", "NeverKeyForWrongSide"],
-                             properties=["SerializePure", "ScalarStable"]), label=label)
+                                         "AtMostOneMsg", "EntropyOnlyInStart", "NeverKeyForWrongSide", "LifecycleInv"],
+                             properties=["SerializePure", "ScalarStable", "RefinesLifecycle"]), label=label)
     if witness:
         ws = ["NoWitnessRestoredKey"]
         ctx.witness("MC_Persist", cfg(view="ViewNoLast", spec="PersistSpec", constants=consts, invariants=ws), ws, label=label)
